@@ -312,4 +312,158 @@ func TestC15(t *testing.T) {
 		r.Count("long_stream_reads", reads)
 		r.Distinct(fmt.Sprintf("long-%d-%d", i, len(s)))
 	})
+
+	// generations: the file streams call Finish when a log is truncated and go
+	// on reading with the same reader, and several readers are alive at once.
+	// Reader A goes through 2-4 generations (Finish after each); reader B is
+	// created after A's first Finish and interleaves its reads with A's. Each
+	// reader's output must be the concatenation of the reference split of its
+	// own generations, whatever the other one does.
+	grng := ev.NewRNG(ev.Seed(), "c15-gen")
+	ev.Parallel(ev.Pick(6000, 300000), runtime.GOMAXPROCS(0), func(i int) {
+		g := grng.Sub(i)
+		mk := func() string {
+			n := g.Intn(12)
+			if g.Intn(8) == 0 {
+				n = g.Range(20, 300)
+			}
+			b := make([]byte, n)
+			for k := range b {
+				b[k] = "\n\n\raxyz\xc3\xa9 "[g.Intn(10)]
+			}
+			return string(b)
+		}
+		bufSize := ev.PickOne(g, []int{1, 2, 3, 5, 8, 64, 4096})
+		type rd struct {
+			src   *genReader
+			lr    *logstream.LineReader
+			lines chan *logline.LogLine
+			gens  []string
+			gen   int
+			got   []string
+			want  []string
+			name  string
+		}
+		ctx := context.Background()
+		newRd := func(name string, ngen int) *rd {
+			x := &rd{name: name, lines: make(chan *logline.LogLine, 4096)}
+			for k := 0; k < ngen; k++ {
+				x.gens = append(x.gens, mk())
+				x.want = append(x.want, refSplit(x.gens[k])...)
+			}
+			x.src = &genReader{g: g}
+			x.src.load(x.gens[0])
+			x.lr = logstream.NewLineReader(name, x.lines, x.src, bufSize, func() {})
+			return x
+		}
+		drain := func(x *rd) {
+			for {
+				select {
+				case l := <-x.lines:
+					if l.Filename != x.name {
+						x.got = append(x.got, "<<wrong filename "+l.Filename+">>")
+					}
+					x.got = append(x.got, l.Line)
+				default:
+					return
+				}
+			}
+		}
+		// step advances a reader by one ReadAndSend, or finishes its generation
+		// when the source is exhausted; false when the reader is done
+		step := func(x *rd) bool {
+			if x.gen >= len(x.gens) {
+				return false
+			}
+			n, err := x.lr.ReadAndSend(ctx)
+			drain(x)
+			if n == 0 && err == io.EOF {
+				x.lr.Finish(ctx)
+				drain(x)
+				x.gen++
+				if x.gen < len(x.gens) {
+					x.src.load(x.gens[x.gen])
+				}
+			}
+			return true
+		}
+		a := newRd("A", g.Range(2, 4))
+		var b *rd
+		func() {
+			defer func() {
+				if p := recover(); p != nil {
+					a.got = append(a.got, fmt.Sprintf("<<panic %v>>", p))
+				}
+			}()
+			for steps := 0; steps < 100000; steps++ {
+				if b == nil && a.gen >= 1 {
+					b = newRd("B", g.Range(1, 2))
+				}
+				ra, rb := true, false
+				if b != nil && g.Bool() {
+					ra, rb = false, true
+				}
+				okA, okB := true, true
+				if ra {
+					okA = step(a)
+					if !okA && b != nil {
+						okB = step(b)
+					}
+				}
+				if rb {
+					okB = step(b)
+					if !okB {
+						okA = step(a)
+					}
+				}
+				if !okA && (b == nil || !okB) {
+					break
+				}
+			}
+		}()
+		r.Eval(1)
+		r.Count("generation_runs", 1)
+		for _, x := range []*rd{a, b} {
+			if x == nil {
+				continue
+			}
+			if !eq(x.got, x.want) {
+				r.Violation("generations-"+class(x.got, x.want), map[string]any{"reader": x.name, "generations_quoted": qs(x.gens), "buffer": bufSize, "other_reader_generations_quoted": func() []string {
+					if x == a && b != nil {
+						return qs(b.gens)
+					}
+					return qs(a.gens)
+				}(), "got": qs(x.got), "want": qs(x.want), "what": "reader " + x.name + " (Finish after each generation, then reused) delivered something else than the lines of its own generations"})
+				return
+			}
+		}
+		if b != nil {
+			r.Distinct(fmt.Sprint("gen", i))
+		}
+	})
+}
+
+// genReader serves one generation of bytes at a time in random chunk sizes and
+// reports (0, io.EOF) between generations.
+type genReader struct {
+	g    *ev.RNG
+	data []byte
+}
+
+func (r *genReader) load(s string) { r.data = []byte(s) }
+
+func (r *genReader) Read(p []byte) (int, error) {
+	if len(r.data) == 0 {
+		return 0, io.EOF
+	}
+	n := r.g.Range(1, 7)
+	if n > len(r.data) {
+		n = len(r.data)
+	}
+	if n > len(p) {
+		n = len(p)
+	}
+	copy(p, r.data[:n])
+	r.data = r.data[n:]
+	return n, nil
 }
